@@ -2,6 +2,7 @@
    ExtrOcamlBasic only (bool, option, list, prod, unit, sumbool mapped to the
    OCaml types); Z / positive / N / nat stay the extracted inductive types. *)
 From Coq Require Import Extraction ExtrOcamlBasic.
+From LNC Require Noise.
 From LNC Require Import GoLite MessagesGen QueueGen SyncerGen MsgDataGen SidGen Codec Gbn GbnMonitor GbnHandshake Timeout.
 
 Extraction Language OCaml.
@@ -13,4 +14,6 @@ Extraction "lnc_model.ml"
   syncer_initResendUpTo GetSID
   dstep drun dinit mstep minit mrun split_msg
   classify s_observe c_observe s_obs_init c_obs_init hstep hrun hinit
-  tm_step tm_init get_resend get_handshake fboost32.
+  tm_step tm_init get_resend get_handshake fboost32
+  Noise.kn_iter Noise.kn_of Noise.read_all Noise.writer_stream Noise.reads Noise.grpc_read Noise.buf_read
+  Noise.tcp_write_records Noise.grpc_write_records Noise.flush Noise.flush_all Noise.read_full Noise.seal_tags.
